@@ -516,10 +516,13 @@ package raft
 //@ requires r.remotes != nil && r.witnesses != nil
 //@ ensures result != nil && fresh(result)
 //@ ensures forall k uint64 :: (k in result) == (k in r.remotes || k in r.witnesses)
+//@ ensures forall k uint64 :: k in result ==> (k in r.remotes && result[k] == r.remotes[k]) || (k in r.witnesses && result[k] == r.witnesses[k])
 //@ loop 1 modifies entries(nodes)
 //@ loop 1 invariant nodes != nil && fresh(nodes) && (forall k uint64 :: (k in nodes) == visited(k)) && (forall k uint64 :: visited(k) ==> k in r.remotes)
+//@ loop 1 invariant forall k uint64 :: k in nodes ==> nodes[k] == r.remotes[k]
 //@ loop 2 modifies entries(nodes)
 //@ loop 2 invariant nodes != nil && fresh(nodes) && (forall k uint64 :: (k in nodes) == (k in r.remotes || visited(k))) && (forall k uint64 :: visited(k) ==> k in r.witnesses)
+//@ loop 2 invariant forall k uint64 :: k in nodes ==> (k in r.remotes && nodes[k] == r.remotes[k]) || (k in r.witnesses && nodes[k] == r.witnesses[k])
 
 // heavy callees of becomeLeader whose bodies are not (yet) under contract
 //@ func (r *raft) preLeaderPromotionHandleConfigChange [C03]
@@ -834,3 +837,26 @@ package raft
 //@ ensures r.handlers[witness][pb.Propose] == old(r.handlers[witness][pb.Propose]) && r.handlers[witness][pb.ReadIndex] == old(r.handlers[witness][pb.ReadIndex])
 //@ func lw [C18]
 //@ trusted wraps a leader handler (returns a closure)
+
+// CheckQuorum (C18): only voting members and witnesses are consulted; the activity flags of
+// non-voting members are neither counted nor reset
+//@ func (r *raft) leaderHasQuorum [C18]
+//@ noframe
+//@ nobounds
+//@ requires r.remotes != nil && r.witnesses != nil
+//@ requires forall k1 uint64, k2 uint64 :: k1 in r.nonVotings && k2 in r.remotes ==> r.nonVotings[k1] != r.remotes[k2]
+//@ requires forall k1 uint64, k2 uint64 :: k1 in r.nonVotings && k2 in r.witnesses ==> r.nonVotings[k1] != r.witnesses[k2]
+//@ ensures forall k uint64 :: k in r.nonVotings ==> r.nonVotings[k].active == old(r.nonVotings[k].active)
+//@ loop 1 invariant forall k uint64 :: k in r.nonVotings ==> r.nonVotings[k].active == old(r.nonVotings[k].active)
+
+// C18/C03: a vote response is handed to the raft core only if it comes from a member of the shard
+// (a granted vote from an unknown or removed replica must never count towards an election)
+//@ func (r *raft) Handle [C18 C03]
+//@ trusted the raft core's message dispatcher (its handlers are under contract individually)
+//@ requires m.Type == pb.RequestVoteResp ==> (m.From in r.remotes || m.From in r.nonVotings || m.From in r.witnesses)
+//@ func IsLocalMessageType [C18]
+//@ trusted classification of message types
+//@ func (p *Peer) Handle [C18 C03]
+//@ noframe
+//@ nobounds
+//@ requires p.raft != nil
